@@ -8,7 +8,7 @@ MANIFEST = dict(
     design='4/C05')
 
 RULE = 'histories with equal rule ids and equal CP SEIDs across sessions and peers, SEID re-use, takeover to fresh and to existing node ids, re-association, SEID-0 responses'
-GEN = dict(weights=dict(est=18, mod=24, dele=8, asr=12, srr=8, usa=8, dld=6), big_seids=False)
+GEN = dict(weights=dict(est=18, mod=24, dele=8, asr=12, srr=8, usa=8, dld=6), big_seids=False, p_alias=0.06)
 N_QUICK, N_THOROUGH = 120, 3000
 
 
